@@ -5,7 +5,7 @@ CONSTANTS
   StreamPeer <- Nt_StreamPeer
   NodePeers = {}
   Accounts = {"A", "B"}
-  Spaces = {"X", "Y"}
+  Spaces = {"X"}
   BadSpaces = {}
   NotResp = {}
   InitMember <- Nt_Member
@@ -18,7 +18,7 @@ CONSTANTS
   BroadcastDedup = TRUE
   FIX_PruneEmpty = TRUE
   AllowLate = TRUE
-  FlipAccounts = {"A", "B"}
+  FlipAccounts = {"B"}
   Self = "A"
   LocalPats = {}
   Msgs = {}
